@@ -99,6 +99,8 @@ struct Context {
     mode: ContextMode,
     // data stack height when the context was opened
     ds_open: usize,
+    // number of interned sources when the context was opened
+    so_len: usize,
 }
 
 // everything a source can change while it is being built; restored if the build fails
@@ -617,6 +619,7 @@ impl State {
             ip: self.code_origin(),
             mode,
             ds_open: self.data_stack.len(),
+            so_len: self.sources.len(),
         };
         if self.ctx.mode == tmp.mode {
             tmp.ds_len = self.ctx.ds_len;
@@ -654,6 +657,21 @@ impl State {
                     self.dict.swap_remove(i);
                 }
             }
+            // the files the block pulled in are no longer "included": the words they defined have
+            // just been purged, so a later `require` has to load them again (a text that is still
+            // being read - the block was closed from inside it - stays, and so does all before it)
+            let still_read = self
+                .input
+                .iter()
+                .filter_map(|lex| {
+                    self.sources
+                        .iter()
+                        .rposition(|s| Xstr::ptr_eq(&s.1, lex.buffer()))
+                })
+                .max()
+                .map(|i| i + 1)
+                .unwrap_or(0);
+            self.sources.truncate(self.ctx.so_len.max(still_read));
             // an enclosing meta block with a control structure, builder or definition open is
             // compiling, not running: its code runs later, so the results have to be inlined there
             let is_compiling = self.flow_stack[prev.fs_len..]
